@@ -44,8 +44,16 @@ def run(ctx, chk):
     chk.floor(R3, "Vec mutations in the loader", n, 10)
 
     R4 = chk.rule("S4-COVER", "every container the loader can move an instruction into is read by Module::assemble_into")
-    tv = Trav(ctx)
-    asm = set(tv.asm_fn("Module"))
+    from . import travx, walkx
+    emitted = None
+    for inst_, wh_, got_, want_ in travx.cases(ctx):
+        if inst_ == "Module::assemble_into":
+            emitted = got_
+    if not isinstance(emitted, list):
+        raise Anchor("Module::assemble_into could not be evaluated on the abstract module: %s" % (emitted,))
+    name_in = {"module." + f_: n_ for f_, n_, _ in walkx.SECTIONS}
+    name_in.update({"module.types_global_values": "TYPE", "function.def": "FUNCTION", "function.end": "FUNCTION_END", "function.parameters": "PARAMETER",
+                    "block.label": "LABEL", "block.instructions": "ADD"})
     ops, _ = op_values(ctx)
     sinks = set()
     for st in ((False, False), (True, False), (True, True)):
@@ -53,12 +61,10 @@ def run(ctx, chk):
             res, _m = loaderx.consume(ctx, op, st[0], st[1])
             if res[0] == "ok":
                 sinks |= set(res[1])
-    conv = {"function.def": "functions[].def", "function.end": "functions[].end", "function.parameters": "functions[].parameters",
-            "block.label": "functions[].blocks[].label", "block.instructions": "functions[].blocks[].instructions"}
     for s in sorted(sinks):
-        path = conv.get(s, s[len("module."):] if s.startswith("module.") else s)
-        chk.check(R4, path in asm, "sink:" + s, "the loader stores instructions in %s, which the assembler never emits" % s,
-                  raw.where("assemble_into", "Module", "assemble.rs"), sample=path)
+        nm = name_in.get(s)
+        chk.check(R4, nm is not None and nm in emitted, "sink:" + s, "the loader stores instructions in %s, which Module::assemble_into does not emit on the "
+                  "abstract module (emitted: %s)" % (s, emitted), raw.where("assemble_into", "Module", "assemble.rs"), sample=nm)
     chk.floor(R4, "loader sinks", len(sinks), 16)
 
     R5 = chk.rule("S5-HEADER", "the loader keeps the parsed header (consume_header stores it); parse_header builds it from word 3 (bound) "
@@ -103,4 +109,4 @@ def run(ctx, chk):
                     chk.check(R7, fnm == "split_into_word_count_and_opcode", "%s:%s->%s" % (fnm, s["from"], s["to"]),
                               "narrowing cast %s -> %s in %s" % (s["from"], s["to"], nm), where(s["span"]), key="C01:narrow:%s:%s->%s" % (fnm, s["from"], s["to"]))
     chk.floor(R7, "narrowing casts audited", nn, 2)
-    chk.analysed.update({"loader_sinks": sorted(sinks), "assembler_paths": sorted(asm), "narrowing_casts": nn})
+    chk.analysed.update({"loader_sinks": sorted(sinks), "assembler_paths": emitted, "narrowing_casts": nn})
